@@ -183,6 +183,11 @@ impl FramebufferTag {
                 let palette = {
                     // Ensure the slice can be created without causing UB
                     assert_eq!(mem::size_of::<FramebufferColor>(), 3);
+                    assert!(
+                        num_colors as usize * mem::size_of::<FramebufferColor>()
+                            <= reader.buffer.len() - reader.off,
+                        "Embedded framebuffer info should be properly sized and available"
+                    );
 
                     unsafe {
                         slice::from_raw_parts(
